@@ -353,7 +353,10 @@ def run_case(case: dict) -> Outcome:
             elif what == "missing-other-path":
                 # load(path) is pointed at a file that does not exist while the configured file does
                 env.install_registry(gateway.nodes, {"8": {"sketch_name": "configured file exists"}})
-                await gateway.persistence.save()
+                try:
+                    await gateway.persistence.save()
+                except Exception as err:  # noqa: BLE001
+                    return fail(f"load-leak:setup:{env.exc_sig(err)}", f"{what}: saving a valid registry in a writable directory raised {err!r}")
                 before_other = env.snapshot(gateway.nodes)
                 try:
                     await gateway.persistence.load(os.path.join(scratch, "another-file-that-is-missing.json"))
